@@ -274,7 +274,7 @@ func runC06(r *core.Run) {
 		}, func(c c06Case) core.Outcome { return checkC06(r, c) })
 
 	bound := core.Pick(r, 2, 3)
-	r.Bound("long-files", fmt.Sprintf("every medium (40-200 byte) corpus file (LF form, and CRLF form with <= 2 deviations over all sizes) with <= %d deviations (short reads of every size / EOF with data, at any Read); the 15 placeholder-token files with <= 2; the small SAM alignment files with <= 3; the ~9 KiB file and the long-line file (a line of 5000+ bytes, LF and CRLF) of every format with <= %d deviations over the size menu {1,2,3,half,max-1}", bound+1, bound))
+	r.Bound("long-files", fmt.Sprintf("every medium (40-200 byte) corpus file (LF form, and CRLF form with <= 2 deviations over all sizes) with <= %d deviations (short reads of every size / EOF with data, at any Read); the 15 placeholder-token files and the unsupported-syntax files with <= 2; the small SAM alignment files with <= 3; the ~9 KiB file and the long-line file (a line of 5000+ bytes, LF and CRLF) of every format with <= %d deviations over the size menu {1,2,3,half,max-1}", bound+1, bound))
 	core.Clause(r, "long-files-bounded", core.Opts{Rule: "deviation-bounded exploration (iterated: 0, 1, .. bound deviations) of the Read schedule of longer well-formed files; non-trivial = all"},
 		func(emit func(c06Case) bool) {
 			for _, f := range formats {
@@ -295,8 +295,10 @@ func runC06(r *core.Run) {
 					emit(c06Case{Format: f.Name, Corpus: fmt.Sprint("medium/", i), AllSizes: true, Bound: min(bound, 2)})
 					emit(c06Case{Format: f.Name, Corpus: fmt.Sprint("medium/", i), AllSizes: false, Bound: bound + 1})
 				}
-				for i := range corpus(f.Name, "vocab") {
-					emit(c06Case{Format: f.Name, Corpus: fmt.Sprint("vocab/", i), AllSizes: false, Bound: 2})
+				for _, size := range []string{"vocab", "ext"} {
+					for i := range corpus(f.Name, size) {
+						emit(c06Case{Format: f.Name, Corpus: fmt.Sprint(size, "/", i), AllSizes: false, Bound: 2})
+					}
 				}
 				emit(c06Case{Format: f.Name, Corpus: "large/0", AllSizes: false, Bound: bound})
 				emit(c06Case{Format: f.Name, Corpus: "longline/0", AllSizes: false, Bound: bound})
